@@ -141,8 +141,13 @@ pub fn reap(node: &Node) {
 /// In-memory transport: the repository's `ClnRpc` trait straight onto the fake node.
 pub struct MemRpc(pub Node);
 
+/// error code standing for "the connection to lightning-rpc could not be opened": the repository's
+/// transport reports that as `RpcError::General` (no error object), every other failure as `RpcError::Rpc`
+pub const CONNECT: i32 = i32::MIN;
+
 fn conv<T: serde::de::DeserializeOwned>(r: Reply) -> Result<T, RpcError> {
     match r {
+        Err((Some(CONNECT), message)) => Err(RpcError::General(anyhow::anyhow!("Error connecting to lightning-rpc: {}", message))),
         Ok(v) => serde_json::from_value(v).map_err(|e| RpcError::Rpc(cln_rpc::RpcError { code: None, message: format!("Failed to parse response {:?}", e), data: None })),
         Err((code, message)) => Err(RpcError::Rpc(cln_rpc::RpcError { code, message, data: None })),
     }
